@@ -123,6 +123,24 @@ theorem C25_read_batch_pure (s : State) (c : Cred) (o d : Str) (qs : List Query)
     subst this
     simp [step, hd, applyAction]
 
+/-! ### defect of the unrepaired `DbPool::rename_db` (found by the C24 stream, seed 20260921) -/
+
+/-- after an admin rename to an owner who never had a database, the owner's audit directory is not
+    created by the unrepaired code; the next mutating batch is then APPLIED, answered 500 and NOT audited -/
+theorem C25_rename_audit_dir_counterexample :
+    Path.dbAuditDirS [] "amy".toList ∉ renameCreatesDirsLegacy "amy".toList ∧
+    execMutAfterCommit (Decidable.decide (Path.dbAuditDirS [] "amy".toList ∈ renameCreatesDirsLegacy "amy".toList))
+      [⟨"amy".toList, .insertNodes 1⟩] = (500, true, false) := by decide
+
+/-- the repaired `rename_db` creates it, so every applied batch is audited and answered 200 -/
+theorem C25_rename_audit_dir (o : Str) (au : List AuditRec) :
+    Path.dbAuditDirS [] o ∈ renameCreatesDirs o ∧
+    execMutAfterCommit (Decidable.decide (Path.dbAuditDirS [] o ∈ renameCreatesDirs o)) au = (200, true, true) := by
+  have h : Path.dbAuditDirS [] o ∈ renameCreatesDirs o := by simp [renameCreatesDirs]
+  refine ⟨h, ?_⟩
+  simp only [h, decide_true, execMutAfterCommit]
+  split <;> rfl
+
 /-! non-vacuity -/
 example : (execBatchMut "bob".toList {} [.insertNodes 2, .insertAliased "k".toList, .remove (.result 0)]).toOption
     = some ({ nodes := [3], aliases := [("k".toList, 3)], next := 4 },
